@@ -1148,7 +1148,7 @@ fn fidelity(ctx: &mut Ctx) {
                     ("mode", Some(g)) if is_exe && g.perm == 0o777 && want.perm == 0o777 & !umask => "executable-bit-set-ignoring-umask".to_string(),
                     ("mode", Some(g)) if !is_exe && pre_perm == Some(g.perm) => "overwrite-keeps-old-permissions".to_string(),
                     // same cause for an executable entry: the old mode is kept and the executable bits are added to it
-                    ("mode", Some(g)) if is_exe && pre_perm.map_or(false, |pp| g.perm == (pp | (0o111 & !umask))) => {
+                    ("mode", Some(g)) if is_exe && pre_perm.map_or(false, |pp| g.perm == (pp | (0o111 & !umask)) || g.perm == (pp | ((pp & 0o444) >> 2))) => {
                         "overwrite-keeps-old-permissions-plus-executable-bits".to_string()
                     }
                     ("mode", Some(g)) if is_exe && filemode == "false" && g.perm == want.perm & !0o111 => "core.filemode=false-drops-executable-bit".to_string(),
